@@ -54,7 +54,7 @@ func verifHistoryTokenEndpoint(ctx context.Context, env verifEnv, code *Authoriz
 			_, _ = intro.IntrospectToken(ctx, env.Token(), env.TokenType(), env.Request(), nil)
 		case 4:
 			// some other handler (an extension outside this repository) stores an access token under the id of its own, new request
-			_ = store.CreateAccessTokenSession(ctx, env.Signature(), env.Request())
+			_ = store.CreateAccessTokenSession(ctx, env.Signature(), env.Request().Sanitize([]string{}))
 		case 7:
 			_ = cc.PopulateTokenEndpointResponse(ctx, env.Request(), env.Response())
 		case 8:
